@@ -298,7 +298,7 @@ func (ex *Explorer) merge(r *PathResult) {
 // ---------- Machine: state of one path ----------
 
 type Machine struct {
-	race raceState
+	race      raceState
 	fmtDigits bool // fork on the digit count of symbolic integers rendered by fmt
 	eng       *Engine
 	cfg       Config
